@@ -255,3 +255,47 @@ struct FileContent {
     content: String,
     is_remote: bool,
 }
+
+#[cfg(feature = "verif-hooks")]
+impl Vfs {
+    pub(crate) fn verif_sizes(&self) -> Vec<(&'static str, usize)> {
+        vec![
+            ("file_id_map", self.file_id_map.len()),
+            ("file_path_map", self.file_path_map.len()),
+            ("remote_file_id_map", self.remote_file_id_map.len()),
+            (
+                "file_data.live",
+                self.file_data.iter().filter(|d| d.is_some()).count(),
+            ),
+            ("line_index_map", self.line_index_map.len()),
+            ("tree_map", self.tree_map.len()),
+        ]
+    }
+
+    pub(crate) fn verif_file_refs(&self, file_id: FileId) -> Vec<(&'static str, usize)> {
+        vec![
+            (
+                "file_id_map",
+                self.file_id_map
+                    .values()
+                    .filter(|id| **id == file_id.id)
+                    .count(),
+            ),
+            (
+                "file_path_map",
+                self.file_path_map.contains_key(&file_id.id) as usize,
+            ),
+            (
+                "file_data.live",
+                self.file_data
+                    .get(file_id.id as usize)
+                    .is_some_and(|d| d.is_some()) as usize,
+            ),
+            (
+                "line_index_map",
+                self.line_index_map.contains_key(&file_id) as usize,
+            ),
+            ("tree_map", self.tree_map.contains_key(&file_id) as usize),
+        ]
+    }
+}
